@@ -120,11 +120,16 @@ type bitSource struct {
 	bits      []int
 	pos       int
 	exhausted bool
+	zeroPad   bool // after the list: zero bits for ever (pos keeps counting)
 }
 
 func (s *bitSource) ReadBit() (int, error) {
 	if s.pos >= len(s.bits) {
 		s.exhausted = true
+		if s.zeroPad {
+			s.pos++
+			return 0, nil
+		}
 		return 0, fmt.Errorf("bit list exhausted")
 	}
 	b := s.bits[s.pos]
@@ -181,4 +186,24 @@ func caseRefs(c *Ctx, rng *Rand, n int, suites ...string) []genRef {
 		out = append(out, genRef{rng.U64() | 1, i})
 	}
 	return out
+}
+
+// mcall is c.M.Call with an optional trace of slow model calls (VERIF_T2_TRACE=<seconds>).
+func mcall(c *Ctx, op string, args ...string) string {
+	tr := os.Getenv("VERIF_T2_TRACE")
+	if tr == "" {
+		return c.M.Call(op, args...)
+	}
+	var lim float64
+	fmt.Sscanf(tr, "%g", &lim)
+	t0 := time.Now()
+	rep := c.M.Call(op, args...)
+	if d := time.Since(t0).Seconds(); d >= lim {
+		n := 0
+		for _, a := range args {
+			n += len(a)
+		}
+		fmt.Fprintf(os.Stderr, "slow model call %s: %.2fs, %d argument bytes, %d reply bytes\n", op, d, n, len(rep))
+	}
+	return rep
 }
